@@ -52,7 +52,7 @@ def own_block(d):
     sts = type_stmts(d)
     return sts[0] if sts and tag(sts[0]) == 'vftable' else None
 
-def mutate_derived(rng, c, kinds=('name', 'recv', 'arg', 'ret', 'cc', 'trunc', 'arity', 'padtrunc')):
+def mutate_derived(rng, c, kinds=('name', 'recv', 'arg', 'ret', 'cc', 'trunc', 'arity', 'padtrunc', 'gap')):
     """pick a derived type whose own block repeats inherited slots and damage one inherited slot"""
     defs = {}
     for (mp, file, m) in modules_of(c):
@@ -94,11 +94,36 @@ def mutate_derived(rng, c, kinds=('name', 'recv', 'arg', 'ret', 'cc', 'trunc', '
             c2 = replace_at(c, p_, d2)
             c2[1] = c2[1] + '-padtrunc'
             return c2 + [[S('expect'), 'reject-vftable-mismatch']]
+    if 'gap' in kinds and rng.random() < (0.5 if len(kinds) <= 2 else 0.15):
+        # the derived block skips an inherited slot with #[index]: a placeholder sits where the base has a function – must be rejected
+        from .c04 import spec_table
+        gc = []
+        for (p_, d_, ninh_) in cands:
+            blk = own_block(d_); fbn = first_base_name(d_)
+            bb = own_block(defs[fbn]) if fbn in defs else None
+            if bb is None: continue
+            bt, _ = spec_table(bb)
+            if bt is None: continue
+            fns_ = blk[2:]
+            if any(attr_fn(fn_attrs(f_), 'index') is not None for f_ in fns_): continue
+            for k_ in range(min(ninh_, len(fns_) - 1)):
+                if k_ < len(bt) and not bt[k_].startswith('_vfunc_'):
+                    gc.append((p_, d_, k_))
+        if gc:
+            p_, d_, k_ = rng.choice(gc)
+            blk = own_block(d_)
+            g = list(blk[3 + k_])
+            g[3] = attrs(*([a_int('index', k_ + 1)] + list(g[3][1:])))
+            newblock = blk[:2 + k_] + [g] + blk[4 + k_:]
+            d2 = list(d_); t2 = list(d_[3]); t2[2] = newblock; d2[3] = t2
+            c2 = replace_at(c, p_, d2)
+            c2[1] = c2[1] + '-gap'
+            return c2 + [[S('expect'), 'reject-vftable-mismatch']]
     p, d, ninh = rng.choice(cands)
     block = d[3][2]
     k = rng.randrange(ninh)
     f = list(block[2 + k])
-    kind = rng.choice([k_ for k_ in kinds if k_ != 'padtrunc'])
+    kind = rng.choice([k_ for k_ in kinds if k_ not in ('padtrunc', 'gap')])
     if kind == 'name':
         f[2] = f[2] + '_x'
     elif kind == 'recv':
